@@ -20,10 +20,17 @@ def check(prop, tier, seed):
         if set(r.get('never_taken', [])) - allow:
             raise ToolError(f'{cfg}: vacuous actions {r["never_taken"]}')
         mc.append(r)
+    if tier == 'thorough':
+        for cfg in ('MC_Reconnect_big_TRUE.cfg', 'MC_Reconnect_big_FALSE.cfg'):      # all 3 280 scripts of length <= 7, 7 calls
+            r = core.tlc_mc('MC_Reconnect', cfg, workers=12, timeout=3000)
+            if r.get('violated'):
+                raise ToolError(f'{cfg}: Mechanism model violates {r["violated"]}:\n' + r.get('output_tail', '')[-2500:])
+            mc.append(r)
     mc.append(core.tlc_mc('MC_Reconnect', 'MC_Reconnect_keeperr.cfg', workers=4, expect_violation='Contract'))
     mc.append(core.tlc_mc('MC_Reconnect', 'MC_Reconnect_nohbc.cfg', workers=4, expect_violation='Contract'))
     stims = []
-    for cfg in ('Gen_Reconnect_TRUE.cfg', 'Gen_Reconnect_FALSE.cfg'):
+    gens = ('Gen_Reconnect_TRUE.cfg', 'Gen_Reconnect_FALSE.cfg') if tier != 'thorough' else ('Gen_Reconnect_big_TRUE.cfg', 'Gen_Reconnect_big_FALSE.cfg')
+    for cfg in gens:
         rows, st = core.tlc_export('MC_Reconnect', cfg, workers=1, timeout=900)
         mc.append(st)
         seen = set()
@@ -32,7 +39,7 @@ def check(prop, tier, seed):
             if k in seen:
                 continue
             seen.add(k)
-            stims.append({'class': 'tlc_script', 'lazy': r['lazy'], 'script': r['script'], 'calls': 5, 'expect': r['expect'], 'expect_connect': r['connect']})
+            stims.append({'class': 'tlc_script', 'lazy': r['lazy'], 'script': r['script'], 'calls': len(r['expect']) if r['connect'] == 'ok' and r['expect'] else 5, 'expect': r['expect'], 'expect_connect': r['connect']})
     if not stims:
         raise ToolError('no scripts exported')
     if tier == 'thorough':
